@@ -1,55 +1,65 @@
 #![allow(unused, clippy::all)]
 use orx_concurrent_iter::*;
-#[path = "vec_into_elem_rc_good.rs"]
-mod vec_into_elem_rc_good;
-#[path = "vec_con_iter_elem_cell_good.rs"]
-mod vec_con_iter_elem_cell_good;
-#[path = "array_into_elem_rc_good.rs"]
-mod array_into_elem_rc_good;
 #[path = "array_con_iter_elem_cell_good.rs"]
 mod array_con_iter_elem_cell_good;
-#[path = "slice_into_elem_cell_good.rs"]
-mod slice_into_elem_cell_good;
-#[path = "slice_new_elem_cell_good.rs"]
-mod slice_new_elem_cell_good;
-#[path = "iter_elem_rc_good.rs"]
-mod iter_elem_rc_good;
-#[path = "iter_not_send_rc_good.rs"]
-mod iter_not_send_rc_good;
-#[path = "iter_buffered_not_send_rc_good.rs"]
-mod iter_buffered_not_send_rc_good;
-#[path = "cloned_elem_rc_good.rs"]
-mod cloned_elem_rc_good;
-#[path = "copied_elem_rawptr_good.rs"]
-mod copied_elem_rawptr_good;
-#[path = "move_vec_iter_elem_rc_good.rs"]
-mod move_vec_iter_elem_rc_good;
-#[path = "ref_outlives_vec_good.rs"]
-mod ref_outlives_vec_good;
-#[path = "ref_outlives_array_good.rs"]
-mod ref_outlives_array_good;
-#[path = "ref_outlives_slice_source_good.rs"]
-mod ref_outlives_slice_source_good;
-#[path = "mutate_while_borrowed_good.rs"]
-mod mutate_while_borrowed_good;
+#[path = "array_into_elem_rc_good.rs"]
+mod array_into_elem_rc_good;
+#[path = "array_new_elem_rc_moved_good.rs"]
+mod array_new_elem_rc_moved_good;
 #[path = "buffered_chunk_outlives_next_pull_good.rs"]
 mod buffered_chunk_outlives_next_pull_good;
 #[path = "buffered_chunk_outlives_next_pull_iter_good.rs"]
 mod buffered_chunk_outlives_next_pull_iter_good;
-#[path = "chunk_outlives_iter_vec_good.rs"]
-mod chunk_outlives_iter_vec_good;
-#[path = "chunk_outlives_iter_array_good.rs"]
-mod chunk_outlives_iter_array_good;
 #[path = "buffered_iter_outlives_iter_good.rs"]
 mod buffered_iter_outlives_iter_good;
-#[path = "values_outlives_iter_good.rs"]
-mod values_outlives_iter_good;
+#[path = "chunk_outlives_iter_array_good.rs"]
+mod chunk_outlives_iter_array_good;
+#[path = "chunk_outlives_iter_vec_good.rs"]
+mod chunk_outlives_iter_vec_good;
+#[path = "cloned_elem_rc_good.rs"]
+mod cloned_elem_rc_good;
 #[path = "cloned_outlives_source_good.rs"]
 mod cloned_outlives_source_good;
-#[path = "wrapped_iter_outlives_source_good.rs"]
-mod wrapped_iter_outlives_source_good;
+#[path = "copied_elem_rawptr_good.rs"]
+mod copied_elem_rawptr_good;
 #[path = "for_each_closure_ref_escape_good.rs"]
 mod for_each_closure_ref_escape_good;
+#[path = "iter_buffered_not_send_rc_good.rs"]
+mod iter_buffered_not_send_rc_good;
+#[path = "iter_elem_rc_good.rs"]
+mod iter_elem_rc_good;
+#[path = "iter_new_elem_rc_moved_good.rs"]
+mod iter_new_elem_rc_moved_good;
+#[path = "iter_not_send_rc_good.rs"]
+mod iter_not_send_rc_good;
+#[path = "move_vec_iter_elem_rc_good.rs"]
+mod move_vec_iter_elem_rc_good;
+#[path = "mutate_while_borrowed_good.rs"]
+mod mutate_while_borrowed_good;
+#[path = "ref_outlives_array_good.rs"]
+mod ref_outlives_array_good;
+#[path = "ref_outlives_slice_source_good.rs"]
+mod ref_outlives_slice_source_good;
+#[path = "ref_outlives_vec_good.rs"]
+mod ref_outlives_vec_good;
+#[path = "slice_from_elem_cell_shared_good.rs"]
+mod slice_from_elem_cell_shared_good;
+#[path = "slice_into_elem_cell_good.rs"]
+mod slice_into_elem_cell_good;
+#[path = "slice_new_elem_cell_good.rs"]
+mod slice_new_elem_cell_good;
+#[path = "values_outlives_iter_good.rs"]
+mod values_outlives_iter_good;
+#[path = "vec_con_iter_elem_cell_good.rs"]
+mod vec_con_iter_elem_cell_good;
+#[path = "vec_from_elem_rc_moved_good.rs"]
+mod vec_from_elem_rc_moved_good;
+#[path = "vec_into_elem_rc_good.rs"]
+mod vec_into_elem_rc_good;
+#[path = "vec_new_elem_rc_moved_good.rs"]
+mod vec_new_elem_rc_moved_good;
+#[path = "wrapped_iter_outlives_source_good.rs"]
+mod wrapped_iter_outlives_source_good;
 
 fn share_all_valid() {
     // every iterator type can be shared and moved across threads when its element type allows it
@@ -80,31 +90,36 @@ fn share_all_valid() {
     assert_eq!(std::thread::spawn(move || moved.into_seq_iter().sum::<usize>()).join().unwrap(), 6);
 }
 fn main() {
-    vec_into_elem_rc_good::main();
-    vec_con_iter_elem_cell_good::main();
-    array_into_elem_rc_good::main();
     array_con_iter_elem_cell_good::main();
-    slice_into_elem_cell_good::main();
-    slice_new_elem_cell_good::main();
-    iter_elem_rc_good::main();
-    iter_not_send_rc_good::main();
-    iter_buffered_not_send_rc_good::main();
-    cloned_elem_rc_good::main();
-    copied_elem_rawptr_good::main();
-    move_vec_iter_elem_rc_good::main();
-    ref_outlives_vec_good::main();
-    ref_outlives_array_good::main();
-    ref_outlives_slice_source_good::main();
-    mutate_while_borrowed_good::main();
+    array_into_elem_rc_good::main();
+    array_new_elem_rc_moved_good::main();
     buffered_chunk_outlives_next_pull_good::main();
     buffered_chunk_outlives_next_pull_iter_good::main();
-    chunk_outlives_iter_vec_good::main();
-    chunk_outlives_iter_array_good::main();
     buffered_iter_outlives_iter_good::main();
-    values_outlives_iter_good::main();
+    chunk_outlives_iter_array_good::main();
+    chunk_outlives_iter_vec_good::main();
+    cloned_elem_rc_good::main();
     cloned_outlives_source_good::main();
-    wrapped_iter_outlives_source_good::main();
+    copied_elem_rawptr_good::main();
     for_each_closure_ref_escape_good::main();
+    iter_buffered_not_send_rc_good::main();
+    iter_elem_rc_good::main();
+    iter_new_elem_rc_moved_good::main();
+    iter_not_send_rc_good::main();
+    move_vec_iter_elem_rc_good::main();
+    mutate_while_borrowed_good::main();
+    ref_outlives_array_good::main();
+    ref_outlives_slice_source_good::main();
+    ref_outlives_vec_good::main();
+    slice_from_elem_cell_shared_good::main();
+    slice_into_elem_cell_good::main();
+    slice_new_elem_cell_good::main();
+    values_outlives_iter_good::main();
+    vec_con_iter_elem_cell_good::main();
+    vec_from_elem_rc_moved_good::main();
+    vec_into_elem_rc_good::main();
+    vec_new_elem_rc_moved_good::main();
+    wrapped_iter_outlives_source_good::main();
     share_all_valid();
     println!("all good twins ran");
 }
